@@ -329,6 +329,20 @@ fn run_case(no: u64, p: &ProgInfo, inputs: &[Vec<Vec<u64>>], mode: &str, rec: &m
             rec.count(&format!("op:{op}"));
         }
     }
+    // persistence branches ('tick / 'static per input) actually exercised, per operator
+    for l in p.desc.lines().filter(|l| l.starts_with("node ")) {
+        let head = l.split(" <-").next().unwrap_or("");
+        let w: Vec<&str> = head.split(' ').skip(2).collect();
+        let pers: Vec<&str> = w.iter().filter(|x| **x == "tick" || **x == "static").copied().collect();
+        if !pers.is_empty() {
+            rec.count(&format!("pers:{}:{}", w[0], pers.join(",")));
+        }
+    }
+    for t in 0..ticks {
+        if inputs.iter().all(|s| s[t].is_empty()) {
+            rec.count("tick-with-no-input");
+        }
+    }
     rec.count(&format!("kind:{}", p.kind));
     rec.count(&format!("ticks:{ticks}"));
     if nonempty > 0 {
